@@ -349,7 +349,12 @@ class OpGraph:
 
         # dummy trailing half-chain
         assert len(vlist_next) == 1
-        assert coeffs_next[0] == 1.0
+        if coeffs_next[0] != 1.0:
+            # a coefficient which has not been placed on an edge yet
+            # is absorbed by the edges leading to the terminal node
+            for eid in graph.nodes[vlist_next[0].nidl].eids[0]:
+                edge = graph.edges[eid]
+                edge.opics = [(i, c * coeffs_next[0]) for i, c in edge.opics]
 
         # make left node the new end node of the graph
         graph.nid_terminal[1] = vlist_next[0].nidl
